@@ -11,6 +11,7 @@ import (
 	"path/filepath"
 	"sort"
 	"strings"
+	"sync"
 	"testing"
 
 	commonmodel "github.com/prometheus/common/model"
@@ -25,6 +26,8 @@ import (
 )
 
 func TestMain(m *testing.M) { vf.Main(m, "C07", "exploration") }
+
+var buildMu sync.Mutex
 
 var receivers = []string{"r0", "r1", "r2", "r3"}
 
@@ -111,6 +114,11 @@ func TestRouteDifferential(t *testing.T) {
 	trees := run.N(800, 80000)
 	vf.Parallel(t, trees, 16, func(t *testing.T, i int) {
 		r := sub.Rand(i)
+		// Trees are built and inspected one at a time: a route tree that shares mutable state with another
+		// tree (package-level defaults, the configuration's own slices) must show as a wrong tree, not as the
+		// runtime killing the check for a concurrent map access in the reader.
+		buildMu.Lock()
+		defer buildMu.Unlock()
 		spec := gen.RouteTree(r, gen.RouteOpt{MaxDepth: 1 + r.Intn(4), MaxFanout: 1 + r.Intn(4), Receivers: receivers, Legacy: true, MixedMatchers: true, Timers: true})
 		y := configYAML(spec)
 		cfg, err := config.Load(y)
